@@ -328,3 +328,89 @@ report_missing = FunctionContract(
     canary=[("if not found:", "if found:"), ("if entry['key'] == key and entry['index'] == idx)", "if entry['key'] == key)")],
 )
 CONTRACTS.append(report_missing)
+
+
+# ------------------------------------------------------------------ annotate_modifications: one record per request
+ReqT = TKey('ReqT')
+CallRec = TTuple(TInt, TInt, TStr, names=['list', 'index', 'library'])      # a _resiter call: which request, which library
+
+
+def setup_annot(cx):
+    from pyvc.values import IterV
+    from pyvc.builtins import _int, list_append
+    n_mod, n_mut = cx.val('n_modifications', TInt), cx.val('n_mutations', TInt)
+    cx.spec_env['n_modifications'], cx.spec_env['n_mutations'] = n_mod, n_mut
+    cx.assume(z3.And(n_mod.e >= 0, n_mut.e >= 0))
+    found_in = cx.uf('found_in', [TInt, TInt], TBool)         # what _resiter returns for request (list, index) on this molecule
+    COUNTS = cx.heap('COUNTS', cx.box('COUNTS', TSeq(Entry)))
+    CALLS = cx.heap('CALLS', Box(TSeq(CallRec)))
+
+    def requests(n, code):
+        # a request is (resspec, value); only its list and position matter here
+        it = IterV(n.e, lambda i: (Obj('resspec', code=code, idx=SV(TInt, _int(i))), Obj('value')))
+        o = Obj('requests')
+        o.__dict__['iter'] = it
+        o.__dict__['truth'] = n.e > 0
+        return o
+
+    def resiter(e, mod, residue_graph, resspec, library, key, molecule):
+        # _resiter by its contract (found exactly when a residue matches; marks on the matching residues; NameError for an
+        # unknown target of a matching request): here only its result and the arguments it is given matter
+        code, idx = resspec.attrs['code'], resspec.attrs['idx']
+        if {'modification': 0, 'mutation': 1}[key] != code:
+            raise EngineError('_resiter called with the key of the other list')
+        list_append(e, CALLS, (code, idx, library.attrs['which']))
+        return wrap(TBool, found_in(z3.IntVal(code), to_z3(idx, TInt)))
+    cx.spec_env['_resiter'] = Builtin(resiter, '_resiter')
+    cx.spec_env['_format_resname'] = Builtin(lambda e, r: 'spec', '_format_resname')
+    rg = Obj('residue_graph', nodes=Obj('NodeView', __getitem__=Builtin(
+        lambda e, k: Obj('resattrs', get=Builtin(lambda e2, key, d=None: None, 'get')), 'residue_graph.nodes[]')))
+    cx.spec_env['make_residue_graph'] = Builtin(lambda e, m: rg, 'make_residue_graph')
+    ff = Obj('ForceField', modifications=Obj('library', which='modifications'), blocks=Obj('library', which='blocks'))
+    molecule = Obj('Molecule', force_field=ff)
+    counts = Obj('resspec_counts')
+
+    def append(e, entry):
+        cd = entry.cd
+        if not {'success', 'key', 'index'} <= set(cd) or not set(cd) <= {'success', 'key', 'index', 'mutmod', 'post'}:
+            raise EngineError('entry with keys %s' % sorted(cd))
+        list_append(e, COUNTS, (cd['success'], cd['key'], cd['index']))
+    counts.attrs['append'] = Builtin(append, 'resspec_counts.append')
+    return dict(molecule=molecule, modifications=requests(n_mod, 0), mutations=requests(n_mut, 1), resspec_counts=counts)
+
+
+SPEC_AN = {
+    'n0': "lambda: len(old(COUNTS))",
+    'kname': "lambda k: 'modification' if k == 0 else 'mutation'",
+    # position of request (list k, index i) among the records of this molecule
+    'at': "lambda k, i: n0() + (i if k == 0 else n_modifications + i)",
+}
+AN_DONE = ("forall(lambda i: implies(0 <= i and i < {I}, COUNTS[at({K}, i)].key == kname({K}) and COUNTS[at({K}, i)].index == i and "
+           "COUNTS[at({K}, i)].success == found_in({K}, i) and CALLS[at({K}, i) - n0()].list == {K} and CALLS[at({K}, i) - n0()].index == i and "
+           "CALLS[at({K}, i) - n0()].library == ('modifications' if {K} == 0 else 'blocks')))")
+annotate = FunctionContract(
+    F, 'annotate_modifications', 'C19', setup=setup_annot, spec_defs=SPEC_AN,
+    requires=["len(old(CALLS)) == 0"],
+    ensures=[
+        # one record per request, modifications first, in list order: which list, which position, and whether _resiter
+        # found a matching residue in this molecule; modifications are looked up among the force field's modifications,
+        # mutations among its blocks; earlier records are kept
+        "len(COUNTS) == n0() + n_modifications + n_mutations and len(CALLS) == n_modifications + n_mutations",
+        AN_DONE.format(K='0', I='n_modifications'), AN_DONE.format(K='1', I='n_mutations'),
+        "forall(lambda p: implies(0 <= p and p < n0(), COUNTS[p] == old(COUNTS)[p]))",
+    ],
+    modifies=['COUNTS', 'CALLS'],
+    loops={'L1.1': LoopSpec(inv=[
+        "len(COUNTS) == n0() + (_i if key == 'modification' else n_modifications + _i) and len(CALLS) == len(COUNTS) - n0()",
+        "forall(lambda i: implies(0 <= i and i < (_i if key == 'modification' else n_modifications), COUNTS[at(0, i)].key == 'modification' and "
+        "   COUNTS[at(0, i)].index == i and COUNTS[at(0, i)].success == found_in(0, i) and CALLS[i].list == 0 and CALLS[i].index == i and "
+        "   CALLS[i].library == 'modifications'))",
+        "forall(lambda i: implies(0 <= i and key == 'mutation' and i < _i, COUNTS[at(1, i)].key == 'mutation' and "
+        "   COUNTS[at(1, i)].index == i and COUNTS[at(1, i)].success == found_in(1, i) and CALLS[n_modifications + i].list == 1 and "
+        "   CALLS[n_modifications + i].index == i and CALLS[n_modifications + i].library == 'blocks'))",
+        "forall(lambda p: implies(0 <= p and p < n0(), COUNTS[p] == old(COUNTS)[p]))"],
+        modifies=['COUNTS', 'CALLS'])},
+    canary=[("(mutations, 'mutation', molecule.force_field.blocks)", "(mutations, 'mutation', molecule.force_field.modifications)"),
+            ("entry = {'success': mod_found, 'key': key, 'index': idx}", "entry = {'success': True, 'key': key, 'index': idx}")],
+)
+CONTRACTS.append(annotate)
